@@ -10,6 +10,12 @@
 
 int g_in_child = 0;
 
+#include <sys/prctl.h>
+void die_with_parent(void) {
+    prctl(PR_SET_PDEATHSIG, SIGKILL);
+    if(getppid() == 1) _exit(96);     /* the parent was gone before the request took effect */
+}
+
 static bool san_dirty(const blob *err) {
     if(err->n == 0) return false;
     /* "WARNING: AddressSanitizer failed to allocate" is the allocator returning NULL as configured - not a report */
